@@ -596,9 +596,10 @@ def lemma_api_effects(su, name, given=None):
         else:
             q = call_query(I, su, sch, m, rel, args[:-1])
             goals.append((lab + "the function is defined on the arguments at once", q.some))
-        it = I.to_iter(call_query(I, su, sch, m, "iter_" + rel, []), T)
-        cnt = V.count_lits([c.and2(g, c.andl([V.int_eq(I.deref(a), w) for a, w in zip((x if isinstance(x, tuple) else (x,)), want)])) for g, x in it.items], cap=2)
-        goals.append((lab + "iter_%s yields the canonical tuple exactly once" % rel, V.int_eq(cnt, 1)))
+        if (sch.model, "iter_" + rel) in su.prog.methods:       # nullary predicates have no iterator
+            it = I.to_iter(call_query(I, su, sch, m, "iter_" + rel, []), T)
+            cnt = V.count_lits([c.and2(g, c.andl([V.int_eq(I.deref(a), w) for a, w in zip((x if isinstance(x, tuple) else (x,)), want)])) for g, x in it.items], cap=2)
+            goals.append((lab + "iter_%s yields the canonical tuple exactly once" % rel, V.int_eq(cnt, 1)))
     if kind == "define" and rel in sch.rels:
         t = R.types[-1]
         was = c.orl(list(defined0.values()))
@@ -647,6 +648,12 @@ def lemma_queries(su):
             cnt = V.count_lits([c.and2(g, V.int_eq(x, a)) for g, x in it.items], cap=2)
             goals.append(("queries.canon.iter_%s: yields exactly the roots, once (%d)" % (t, a), c.implies(canon, V.int_eq(cnt, V.int_ite(st.is_root(t, a), 1, 0)))))
     for R in sch.user_rels():
+        if (sch.model, "iter_" + R.name) not in su.prog.methods:
+            if R.arity != 0:
+                raise Unsupported("relation %s has no iter_ function" % R.name)
+            q0 = lit(call_query(I, su, sch, m, R.name, []))
+            goals.append(("queries.canon.%s: the nullary query reports the table" % R.name, c.implies(canon, c.iff(q0, st.rel_holds(R.name, ())))))
+            continue
         it = I.to_iter(call_query(I, su, sch, m, "iter_" + R.name, []), T)
         rows = [(g, tuple(I.deref(z) for z in (x if isinstance(x, tuple) else (x,)))) for g, x in it.items]
         args = [ctx.fresh_int("q.%s.a%d" % (R.name, i), 0, U - 1) for i in range(R.arity)]
